@@ -545,7 +545,11 @@ C05_HAccept(c, trk, call, o) ==
   ELSE AcceptHdrRead(c, trk, call, o)
 \* C09: never outside the declared header, never a crash
 C09_Accept(c, trk, call, o) ==
-  IF call.op \in HeaderOps \/ (call.op \in {"next", "clone", "nth", "count", "last", "size_hint"} /\ HasIt(trk, call.it) /\ ItOf(trk, call.it).kind = "htags")
+  \* a header or header tag parsed standalone from a caller's slice: the structure handed out lies inside that slice
+  IF call.op \in {"ref_from_slice", "ref_from_bytes", "bytes_ref"} /\ call.h \in {"mb", "htag"}
+  THEN Controlled(o) /\ (o.k = "ok" => (Has(o.v, "sv") => o.v.at >= 0 /\ o.v.at + o.v.sv <= Len(c.mem))
+                                       /\ (Has(o.v, "len") => o.v.at >= 0 /\ o.v.at + o.v.len <= Len(c.mem)))
+  ELSE IF call.op \in HeaderOps \/ (call.op \in {"next", "clone", "nth", "count", "last", "size_hint"} /\ HasIt(trk, call.it) /\ ItOf(trk, call.it).kind = "htags")
   THEN /\ Controlled(o)
        /\ LET L == U32At(c.mem, 8) IN \A e \in Exts(o) : Inside(e, 16, L)
   ELSE TRUE
